@@ -460,6 +460,9 @@ LIB = [
     ("Option<Vec<u16>>", "Opt_Vec_u16"), ("Option<Box<u32>>", "Opt_Box_u32"),
     ("Result<u32, String>", "Res_u32_String"), ("Result<Vec<u8>, u8>", "Res_Vec_u8_u8"), ("Result<(), ()>", "Res_unit_unit"),
     ("Box<u64>", "Box_u64"), ("std::rc::Rc<String>", "Rc_String"), ("std::sync::Arc<Vec<u32>>", "Arc_Vec_u32"),
+    # smart pointers as the element / key / value of a guarded container (recursion-guard keys)
+    ("Vec<Box<u32>>", "Vec_Box_u32"), ("[std::rc::Rc<u16>; 3]", "Arr3_Rc_u16"), ("std::collections::BTreeMap<u8, std::sync::Arc<String>>", "BTreeMap_u8_Arc_String"),
+    ("Box<[Box<u8>]>", "BoxSlice_Box_u8"), ("std::collections::VecDeque<std::sync::Arc<u32>>", "Deque_Arc_u32"), ("Vec<Option<Box<String>>>", "Vec_Opt_Box_String"),
     ("std::cell::Cell<u32>", "Cell_u32"), ("std::cell::RefCell<String>", "RefCell_String"),
     ("std::sync::Mutex<u16>", "StdMutex_u16"),
     ("parking_lot::Mutex<u32>", "PlMutex_u32"), ("parking_lot::RwLock<Vec<u8>>", "PlRwLock_Vec_u8"),
@@ -524,6 +527,13 @@ def curated():
     T.append(S("VecOfArrayVec", [F("v", "Vec<arrayvec::ArrayVec<u32, 4>>"), F("a", "[arrayvec::ArrayVec<u8, 3>; 2]")], tags=("arrayvec-packed",), containers=()))
     # ignore / defaults
     T.append(S("Ignored1", [F("a", "u32"), F("b", "u32", ignore=True), F("c", "u16")], repr="C", tags=("ignore",), containers=("vec",)))
+    # positional fields after an ignored one: the schema's offsets are taken by field *position* (tuple structs,
+    # variants of repr(C, uN) enums), so an ignored field in the middle must not shift them
+    T.append(S("IgnoredMidTuple", [F("0", "u32"), F("1", "u32", ignore=True), F("2", "u16"), F("3", "u8")], kind="tuple", repr="C", tags=("ignore",), containers=("vec",)))
+    T.append(S("IgnoredFirstTuple", [F("0", "u64", ignore=True), F("1", "u8"), F("2", "u32")], kind="tuple", repr="C", tags=("ignore",), containers=()))
+    T.append(E("IgnoredMidVariant", [Vr("Nothing"), Vr("Pair", [F("x0", "u16"), F("x1", "u64", ignore=True), F("x2", "u8")]),
+                                     Vr("Named", [F("p", "u8"), F("q", "u32", ignore=True), F("r", "u16")], kind="named")],
+               repr="u8, C", tags=("ignore",), containers=("vec",)))
     T.append(S("IgnoredDefaultVal", [F("a", "u8"), F("b", "u32", ignore=True, default_val="42")], tags=("ignore",), containers=("vec",)))
     T.append(S("IgnoredDefaultFn", [F("a", "u8"), F("b", "String", ignore=True, default_fn='"hello".to_string()')], tags=("ignore",), containers=("opt",)))
     # enums
